@@ -336,6 +336,21 @@ fn velocity(c: &mut Ctx, a: &Args, rng: &mut Rng) {
                 if let Some(v) = decode(c, &f, "airspeed:speed") {
                     expect_num(c, &f, &format!("{key}:BDS09:st{st}"), &v[key], mult * (s as f64 - 1.0), 0.0, s as i64);
                 }
+                // the availability bit of the neighbouring field takes its other value: an airspeed is an airspeed
+                // whether or not the heading next to it is available (and the other way round, below)
+                let f = frames::df17(5, AA, &frames::me_velocity_as(cm, 0, (s * 7) % 1024, t, s));
+                if let Some(v) = decode(c, &f, "airspeed:speed:heading-unavailable") {
+                    expect_num(c, &f, &format!("{key}:BDS09:st{st}:heading-unavailable"), &v[key], mult * (s as f64 - 1.0), 0.0, s as i64);
+                }
+            }
+            for h in (0..1024u16).step_by(3) {
+                if !c.mine() {
+                    continue;
+                }
+                let f = frames::df17(5, AA, &frames::me_velocity_as(cm, 1, h, t, 0));
+                if let Some(v) = decode(c, &f, "airspeed:heading:airspeed-unavailable") {
+                    expect_num(c, &f, &format!("heading:BDS09:st{st}:airspeed-unavailable"), &v["heading"], h as f64 * 360.0 / 1024.0, 1e-4, h as i64);
+                }
             }
         }
     }
